@@ -409,3 +409,28 @@ func mapperSpec(c *core.Ctx) {
 		c.Check(ok, "GetConfig returns the config registered for this path", c.Pos(fn.Pos()), "", "the looked-up config is not returned under found")
 	}
 }
+
+func init() {
+	doc := "updater.findBackend (the oauth service lookup) returns a backend only for a path equal to the prefix AND whose backend lives in the declaring namespace; both tests guard the lookup that is returned."
+	addRule("C09", &core.Rule{ID: "C09.oauth-backend-namespace", Floor: 1, Run: oauthFindBackend, Doc: doc})
+	addRule("C18", &core.Rule{ID: "C18.oauth-backend-namespace", Floor: 1, Run: oauthFindBackend, Doc: doc})
+}
+
+func oauthFindBackend(c *core.Ctx) {
+	fn := c.Fn("converters/ingress/annotations", "updater.findBackend")
+	if fn == nil {
+		return
+	}
+	n := 0
+	for _, r := range core.Returns(fn) {
+		v := core.Results(r)[0]
+		if core.IsNilConst(v) {
+			continue
+		}
+		n++
+		okPath := guardedBy(r, has("strings.TrimRight(", " == uriPrefix)"), true)
+		okNS := guardedBy(r, has(".Backend.Namespace == namespace)"), true)
+		c.Check(okPath && okNS, "findBackend returns only a backend of the declaring namespace at the oauth prefix", at(c, r), "", fmt.Sprintf("path test on the way: %v, namespace test on the way: %v — the oauth service of another tenant can be selected", okPath, okNS))
+	}
+	c.Check(n == 1, "findBackend result", c.Pos(fn.Pos()), "", fmt.Sprint(n))
+}
